@@ -6,7 +6,7 @@ import Driver.Util
 
   A schema is a space-separated token stream (prefix encoding with explicit counts):
     schema := N file*
-    file   := hex(path) pkg syn nOpts (num hex(val))* nLocs loc* nMsgs msg* nEnums enum* nSvcs svc* nExts field*
+    file   := hex(path) pkg syn nOpts (num hex(val))* nLocs loc* nMsgs msg* nEnums enum* nSvcs svc* nExts field* isImport
     msg    := name flags4 nFields field* nExts field* nNested msg* nEnums enum* nOneofs (name synth)*
               nRR (lo hi)* nRN name* nER (lo hi)*
     field  := number name hex(fullName) hex(jsonName) label ty kind typeName oneof synth flags4 hex(extendee) jstype utf8 dflt
@@ -16,6 +16,9 @@ import Driver.Util
     pair  <cur> <prev>            -> wf=1|kinds=1|v1beta1/FILE=..|v1beta1/PACKAGE=..|…|v2/WIRE=..
     rules <id,id,…> <cur> <prev>  -> id=..|id=..
     pairold / rulesold            -> the same against the model of the tree without C03-package-last-element.diff
+    pairx <cur> <prev>            -> tag=1|x:v1beta1/FILE=..|…  the 12 category runs WITH BreakingWithExcludeImports
+                                     (`checkX true`); tag=1: the tagged rules, projected, agree with `check`
+    rulesx <id,…> <cur> <prev>    -> x:id=..|…                  single rules with exclude-imports
   with each annotation set rendered as sorted, de-duplicated `RULE:hex(file):dotted-path` joined by ','.
 -/
 namespace Driver.Breaking
@@ -156,7 +159,8 @@ def file : P File := do
   let enums ← many enumP
   let services ← many svc
   let extensions ← many field
-  pure { path, pkg, syn, opts, locs, messages, enums, services, extensions }
+  let isImport ← bit
+  pure { path, pkg, syn, opts, locs, messages, enums, services, extensions, isImport }
 
 def schema (s : String) : Option Schema :=
   match (many file).run ((s.splitOn " ").filter (· ≠ "")) with
@@ -186,6 +190,23 @@ def rulesLine (rr : String → Schema → Schema → List Ann) (ids c p : String
     "|".intercalate ((ids.splitOn ",").map fun id => id ++ "=" ++ renderSet (rr id cur prev))
   | _, _ => "bad-schema"
 
+/-- the 12 category runs with exclude-imports; `tag`: projecting the tagged rules gives `check` -/
+def pairxLine (c p : String) : String :=
+  match schema c, schema p with
+  | some cur, some prev =>
+    let rs := vers.flatMap fun (vn, v) => cats.map fun cat =>
+      let ts := checkT v cat cur prev
+      (renderSet (ts.map (·.ann)) == renderSet (check v cat cur prev),
+       "x:" ++ vn ++ "/" ++ cat ++ "=" ++ renderSet (exclFilter cur prev ts))
+    "tag=" ++ (if rs.all (·.1) then "1" else "0") ++ "|" ++ "|".intercalate (rs.map (·.2))
+  | _, _ => "bad-schema"
+
+def rulesxLine (ids c p : String) : String :=
+  match schema c, schema p with
+  | some cur, some prev =>
+    "|".intercalate ((ids.splitOn ",").map fun id => "x:" ++ id ++ "=" ++ renderSet (runRuleX true id cur prev))
+  | _, _ => "bad-schema"
+
 /-- `pair` / `rules`: the tree with `C03-package-last-element.diff` (what the theorems are about);
     `pairold` / `rulesold`: the tree without it (the harness probes which one it runs against). -/
 def handle : List String → String
@@ -193,6 +214,8 @@ def handle : List String → String
   | ["pairold", c, p] => pairLine checkOld c p
   | ["rules", ids, c, p] => rulesLine runRule ids c p
   | ["rulesold", ids, c, p] => rulesLine runRuleOld ids c p
+  | ["pairx", c, p] => pairxLine c p
+  | ["rulesx", ids, c, p] => rulesxLine ids c p
   | _ => "bad-op"
 
 end Driver.Breaking
